@@ -10,7 +10,7 @@ namespace FeedVerif.Mixin
 
 /-- a RECOGNISED namespace URI (matched case-insensitively against the table) maps the document's
 prefix to the (lower-cased) canonical one and records `namespaces[canonical] = uri` -/
-theorem track_recognised (s : MSt) (pfx : Option Str) (uri canon : Str)
+theorem track_recognised (s : Core) (pfx : Option Str) (uri canon : Str)
     (hnb : containsSub (S "backend.userland.com/rss") (lowerS uri) = false)
     (h : sget matchNs (lowerS uri) = some canon) :
     (trackNamespace s pfx uri).nsMap = sset s.nsMap pfx (lowerS canon) ∧
@@ -20,7 +20,7 @@ theorem track_recognised (s : MSt) (pfx : Option Str) (uri canon : Str)
   refine ⟨?_, ?_⟩ <;> first | rfl | trivial
 
 /-- an UNRECOGNISED URI leaves the prefix map alone and records `namespaces[prefix or ""] = uri` -/
-theorem track_unrecognised (s : MSt) (pfx : Option Str) (uri : Str)
+theorem track_unrecognised (s : Core) (pfx : Option Str) (uri : Str)
     (hnb : containsSub (S "backend.userland.com/rss") (lowerS uri) = false)
     (h : sget matchNs (lowerS uri) = none) :
     (trackNamespace s pfx uri).nsMap = s.nsMap ∧
@@ -80,7 +80,7 @@ theorem dropWhile_prefix_colon (p rest : Str) (hpc : p.contains ':' = false) :
 
 /-- after a recognised declaration, elements written with the document's prefix dispatch under the
 CANONICAL prefix, whatever prefix the document chose -/
-theorem handlerName_canonical (s : MSt) (p lname canon : Str) (hc : canon ≠ [])
+theorem handlerName_canonical (s : Core) (p lname canon : Str) (hc : canon ≠ [])
     (hpc : p.contains ':' = false) (hmap : sget s.nsMap (some p) = some canon) :
     handlerName s (p ++ ':' :: lname) = canon ++ '_' :: lname := by
   unfold handlerName splitTag
@@ -90,7 +90,7 @@ theorem handlerName_canonical (s : MSt) (p lname canon : Str) (hc : canon ≠ []
   simp [this]
 
 /-- an unmapped prefix is kept as the document wrote it -/
-theorem handlerName_document_prefix (s : MSt) (p lname : Str) (hp : p ≠ [])
+theorem handlerName_document_prefix (s : Core) (p lname : Str) (hp : p ≠ [])
     (hpc : p.contains ':' = false) (hmap : sget s.nsMap (some p) = none) :
     handlerName s (p ++ ':' :: lname) = p ++ '_' :: lname := by
   unfold handlerName splitTag
@@ -106,35 +106,35 @@ def isStructural (h : Str) : Bool :=
 
 /-- **Fallback, no attributes**: an element without a dedicated handler and without attributes is
 pushed as a text-collecting element named by its handler name; nothing else changes -/
-theorem fallback_pushes (s : MSt) (h : Str) (hstruct : isStructural h = false) (hno : hasStart h = false) :
-    dispatchStart s h [] = .ok (push s h true) := by
+theorem fallback_pushes (c : Core) (h : Str) (hstruct : isStructural h = false) (hno : hasStart h = false) :
+    dispatchCore c h [] = .ok (c, some ⟨h, true, []⟩) := by
   unfold isStructural at hstruct
   simp only [Bool.or_eq_false_iff] at hstruct
   obtain ⟨⟨⟨⟨h1, h2⟩, h3⟩, h4⟩, h5⟩ := hstruct
-  unfold dispatchStart
+  unfold dispatchCore
   simp only [h1, h2, h3, h4, h5, Bool.false_eq_true, ↓reduceIte, Bool.or_self, hno, dropDecls, List.filter_nil, List.isEmpty_nil]
 
 /-- namespace declarations delivered as attributes (loose back end) do not turn the text form into
 the attribute-dict form -/
-theorem fallback_ignores_declarations (s : MSt) (h : Str) (attrsD : List (Str × Str))
+theorem fallback_ignores_declarations (c : Core) (h : Str) (attrsD : List (Str × Str))
     (hdecl : dropDecls attrsD = []) (hstruct : isStructural h = false) (hno : hasStart h = false) :
-    dispatchStart s h attrsD = .ok (push s h true) := by
+    dispatchCore c h attrsD = .ok (c, some ⟨h, true, []⟩) := by
   unfold isStructural at hstruct
   simp only [Bool.or_eq_false_iff] at hstruct
   obtain ⟨⟨⟨⟨h1, h2⟩, h3⟩, h4⟩, h5⟩ := hstruct
-  unfold dispatchStart
+  unfold dispatchCore
   simp only [h1, h2, h3, h4, h5, Bool.false_eq_true, ↓reduceIte, Bool.or_self, hno, hdecl, List.isEmpty_nil]
 
 /-- **Fallback, with attributes**: the attribute dict is stored under the handler name in the current
 context and nothing is pushed -/
-theorem fallback_stores_attrs (s : MSt) (h : Str) (attrsD : List (Str × Str)) (hne : dropDecls attrsD ≠ [])
+theorem fallback_stores_attrs (c : Core) (h : Str) (attrsD : List (Str × Str)) (hne : dropDecls attrsD ≠ [])
     (hstruct : isStructural h = false) (hno : hasStart h = false) :
-    dispatchStart s h attrsD = .ok (setContext s h (.d (dropDecls attrsD))) := by
+    dispatchCore c h attrsD = .ok (setContext c h (.d (dropDecls attrsD)), none) := by
   unfold isStructural at hstruct
   simp only [Bool.or_eq_false_iff] at hstruct
   obtain ⟨⟨⟨⟨h1, h2⟩, h3⟩, h4⟩, h5⟩ := hstruct
   have he : (dropDecls attrsD).isEmpty = false := by cases hd : dropDecls attrsD <;> simp_all
-  unfold dispatchStart
+  unfold dispatchCore
   simp only [h1, h2, h3, h4, h5, Bool.false_eq_true, ↓reduceIte, Bool.or_self, hno, he]
 
 /-- **Text value under the canonical key (entry context)**: when the element on top of the stack is
@@ -142,13 +142,13 @@ a text-collecting fallback element named `key`, closing it inside an entry store
 joined text under `key` in the newest entry (first occurrence, or not deeper than an earlier one) -/
 theorem fallback_pop_stores_in_entry (o : Ops) (s : MSt) (key : Str) (pieces : List Str) (rest : List Elem)
     (e : Entry) (es : List Entry)
-    (hst : s.stack = ⟨key, true, pieces⟩ :: rest) (hin : s.inentry = true) (hent : s.entries = e :: es)
+    (hst : s.stack = ⟨key, true, pieces⟩ :: rest) (hin : s.c.inentry = true) (hent : s.c.entries = e :: es)
     (hrel : canBeRelativeUri.contains key = false)
     (hk : (key == S "category" || key == S "tags" || key == S "itunes_keywords") = false)
     (hfirst : e.depths.find? (·.1 == key) = none) :
-    (pop o s key).entries = { d := fset e.d key (.s (o.fix (stripS pieces.flatten))),
-                              depths := (e.depths.filter (·.1 != key)) ++ [(key, s.depth)] } :: es ∧
-    (pop o s key).stack = rest ∧ (pop o s key).feed = s.feed := by
+    (pop o s key).c.entries = { d := fset e.d key (.s (o.fix (stripS pieces.flatten))),
+                                depths := (e.depths.filter (·.1 != key)) ++ [(key, s.c.depth)] } :: es ∧
+    (pop o s key).stack = rest ∧ (pop o s key).c.feed = s.c.feed := by
   unfold pop
   simp only [hst, bne_self_eq_false, Bool.false_eq_true, ↓reduceIte, Bool.not_true, hrel, Bool.false_and, hk, hin, hent, updHead,
     writeEntry, hfirst, Option.map_none]
@@ -156,24 +156,22 @@ theorem fallback_pop_stores_in_entry (o : Ops) (s : MSt) (key : Str) (pieces : L
 
 /-- **Text value under the canonical key (feed context)** -/
 theorem fallback_pop_stores_in_feed (o : Ops) (s : MSt) (key : Str) (pieces : List Str) (rest : List Elem)
-    (hst : s.stack = ⟨key, true, pieces⟩ :: rest) (hin : s.inentry = false) (hfeed : s.infeed = true)
+    (hst : s.stack = ⟨key, true, pieces⟩ :: rest) (hin : s.c.inentry = false) (hfeed : s.c.infeed = true)
     (hrel : canBeRelativeUri.contains key = false)
     (hk : (key == S "category" || key == S "tags" || key == S "itunes_keywords") = false) :
-    (pop o s key).feed = fset s.feed key (.s (o.fix (stripS pieces.flatten))) ∧
-    (pop o s key).stack = rest ∧ (pop o s key).entries = s.entries := by
+    (pop o s key).c.feed = fset s.c.feed key (.s (o.fix (stripS pieces.flatten))) ∧
+    (pop o s key).stack = rest ∧ (pop o s key).c.entries = s.c.entries := by
   unfold pop
   simp only [hst, bne_self_eq_false, Bool.false_eq_true, ↓reduceIte, Bool.not_true, hrel, Bool.false_and, hk, hin, hfeed]
   refine ⟨?_, ?_, ?_⟩ <;> first | rfl | trivial
 
 /-- **Attributes: the attribute dict is stored under the key in the current context**
-(entry if inside one, else the feed), and nothing is pushed -/
-theorem fallback_attrs_stored (s : MSt) (key : Str) (attrsD : List (Str × Str)) :
-    (setContext s key (.d attrsD)).stack = s.stack ∧
+(entry if inside one, else the feed) -/
+theorem fallback_attrs_stored (s : Core) (key : Str) (attrsD : List (Str × Str)) :
     (s.inentry = false → (setContext s key (.d attrsD)).feed = fset s.feed key (.d attrsD)) ∧
     (∀ e es, s.inentry = true → s.entries = e :: es →
       (setContext s key (.d attrsD)).entries = { e with d := fset e.d key (.d attrsD) } :: es) := by
-  refine ⟨?_, ?_, ?_⟩
-  · unfold setContext; split <;> rfl
+  refine ⟨?_, ?_⟩
   · intro h; simp [setContext, h]
   · intro e es h he; simp [setContext, h, he, updHead]
 
@@ -207,16 +205,16 @@ def ops0 : Ops :=
 /-- `<rss version="2.0"><channel><G:accuracy>5</G:accuracy><item><p0:thing a="1"/></item></channel></rss>`
 with `G` bound to the (upper-cased) WGS84 URI and `p0` to an unknown URI, as expat delivers it -/
 example :
-    (match mrun ops0 { base := ⟨"http://d/", none, [], []⟩ }
+    (match mrun ops0 { c := { base := ⟨"http://d/", none, [], []⟩ } }
       [.ns (some (S "G")) (S "HTTP://WWW.W3.ORG/2003/01/GEO/WGS84_POS#"), .ns (some (S "p0")) (S "urn:x"),
        .start (S "rss") [(S "version", S "2.0")], .start (S "channel") [],
        .start (S "geo:accuracy") [], .data (S " 5 "), .stop (S "geo:accuracy"),
        .start (S "item") [], .start (S "p0:thing") [(S "a", S "1")], .stop (S "p0:thing"), .stop (S "item"),
        .stop (S "channel"), .stop (S "rss")] with
-    | .ok s => s.feed == [(S "geo_accuracy", V.s (S "5"))] &&
-               s.entries.map (·.d) == [[(S "p0_thing", V.d [(S "a", S "1")])]] &&
-               s.nsInUse == [(S "geo", S "HTTP://WWW.W3.ORG/2003/01/GEO/WGS84_POS#"), (S "p0", S "urn:x")] &&
-               s.version == S "rss20"
+    | .ok s => s.c.feed == [(S "geo_accuracy", V.s (S "5"))] &&
+               s.c.entries.map (·.d) == [[(S "p0_thing", V.d [(S "a", S "1")])]] &&
+               s.c.nsInUse == [(S "geo", S "HTTP://WWW.W3.ORG/2003/01/GEO/WGS84_POS#"), (S "p0", S "urn:x")] &&
+               s.c.version == S "rss20"
     | .unmodelled _ => false) = true := by decide +kernel
 
 end FeedVerif.Mixin
